@@ -461,6 +461,11 @@ def rule_above(ctx):
                 n += 1
                 for x in ast.walk(fn):
                     if isinstance(x, ast.Call) and isinstance(x.func, ast.Attribute) and x.func.attr in DELETERS:
+                        # only the replace shape: something later in the same function puts a record back
+                        rebuild = [y for y in ast.walk(fn) if isinstance(y, ast.Call) and isinstance(y.func, ast.Attribute) and getattr(y, "lineno", 0) > x.lineno
+                                   and (y.func.attr.startswith(("store", "process", "save")) or y.func.attr in ("create_session", "encrypt", "group_encrypt"))]
+                        if not rebuild:
+                            continue
                         ctx.violate("C13.replace", where(m.relpath, "%s.%s" % (c.name, name), x.lineno), x,
                                     "code above the store removes a record itself (%s) and relies on later calls to put a new one back: the removal is committed on its own, so a crash - or an exception in the rebuild - in between leaves the contact without that record" % x.func.attr)
     ctx.hold("C13.replace", where("yowsup/axolotl/manager.py", "AxolotlManager", None), "record removal is left to the store's callers inside python-axolotl", "%d methods above the store examined: none removes sessions / prekeys itself" % n)
